@@ -2010,7 +2010,10 @@ def _single_use_temps(fn, counts):
                 if bad:
                     continue
                 # a call in the next statement that is evaluated before the use would be reordered with E's calls
-                has_call = any(isinstance(n, (ast.Call, ast.Await, ast.Yield)) for n in ast.walk(st.value))
+                # (the same holds for an E that can fail or iterate -- a comprehension, an item access, arithmetic: moving it behind a call changes what has
+                # already happened when it raises; plain names and attribute chains are moved freely)
+                has_call = any(isinstance(n, (ast.Call, ast.Await, ast.Yield, ast.ListComp, ast.SetComp, ast.DictComp, ast.GeneratorExp, ast.Subscript, ast.BinOp))
+                               for n in ast.walk(st.value))
                 if has_call:
                     upos = (use.lineno, use.col_offset)
                     early = False
